@@ -103,6 +103,22 @@ def code_cex(ck, area, cands="CodeCands", timeout=600):
                 body = " ".join(parts[i + 1].split())
                 m = re.match(r"=\s*(.*?)\s*:\s*option", body)
                 val = m.group(1) if m else body
+                if not (val.startswith("Some") or val.startswith("None")):
+                    # evaluation is stuck on the opaque go_junk: on some candidate the generated definition
+                    # reaches a Go panic site (slice/index out of range, division by zero) that the model
+                    # does not have there.  The stuck term still shows the candidate.
+                    m2 = re.search(r"\[\(((?:(?!\[\().){0,600}?go_junk.{0,300}?)\)\]", body)
+                    shown = show_coq_bytes(m2.group(1)) if m2 else body[:300]
+                    res[parts[i]] = "stuck on go_junk: " + shown[:400]
+                    found.append(parts[i])
+                    ck.violation(
+                        "code:" + parts[i],
+                        "the Go code as translated now reaches a panic site (go_junk: slice/index out of range or "
+                        "division by zero) on a candidate input where the proved model returns normally: "
+                        "(input, (code result, model result)) = %s" % shown[:600],
+                        {"function": parts[i], "coq_value": body[:2000],
+                         "how": "vm_compute of hd_error cex_%s in %s" % (parts[i], cpath)})
+                    continue
                 res[parts[i]] = val
                 if val.startswith("Some"):
                     found.append(parts[i])
